@@ -157,18 +157,24 @@ Record Shape (J0 : list joint) (g : graph) (s : tstate) : Prop := {
   S_levels : g_levels g = map (lev s) (seq 0 (nb B))
 }.
 
-Lemma generateGraph_shape J0 g : 1 <= nb B -> JRange B J0 -> generateGraph T B F J0 = Ok g -> exists s, Shape J0 g s.
+Lemma generateGraph_shape_ex J0 g : 1 <= nb B -> JRange B J0 -> generateGraph T B F J0 = Ok g ->
+  exists J1 s, precheck T B (seq 1 (nb B - 1)) J0 = Ok J1 /\ mainloop T B F F J1 init_state = Ok (g_joints g, s) /\ Shape J0 g s.
 Proof.
   unfold generateGraph. intros Hnb HR H.
   destruct (precheck T B (seq 1 (nb B - 1)) J0) as [J1| |] eqn:Ep; try discriminate.
+  pose proof Ep as Ep'.
   apply precheck_spec in Ep; auto. 2:{ intros b Hb. apply in_seq in Hb. lia. }
   destruct Ep as [HR1 HE1].
   destruct (mainloop T B F F J1 init_state) as [[J s]| |] eqn:Em; try discriminate.
+  pose proof Em as Em'.
   apply mainloop_spec in Em; auto using init_inv. 2:{ intros m []. }
   destruct Em as ((HI & HNT) & HR2 & HE2 & Hall).
-  inv H. exists s. rewrite breakL_closed. constructor; simpl; auto.
+  inv H. exists J1, s. rewrite breakL_closed. simpl. split; auto. split; auto. constructor; simpl; auto.
   eapply extends_trans; eauto.
 Qed.
+
+Lemma generateGraph_shape J0 g : 1 <= nb B -> JRange B J0 -> generateGraph T B F J0 = Ok g -> exists s, Shape J0 g s.
+Proof. intros H1 H2 H3. destruct (generateGraph_shape_ex J0 g H1 H2 H3) as (J1 & s & _ & _ & SH). eauto. Qed.
 
 (* ------------------------------------------------------------------ consequences of Shape *)
 Section Conseq.
@@ -372,19 +378,32 @@ Qed.
 
 Definition inputJoints (inp : input) : list joint := map mkJoint (in_joints inp).
 
-Lemma generate_shape fuel inp g : generate fuel inp = Ok g ->
-  exists s, Shape (allTypes inp) (allBodies inp) (inputJoints inp) g s.
+Lemma input_jrange inp : checkJoints (length (allTypes inp)) (length (allBodies inp)) 0 (in_joints inp) = None ->
+  JRange (allBodies inp) (inputJoints inp).
+Proof.
+  intros Ej jn Hjn. unfold inputJoints in *. rewrite map_length in Hjn.
+  destruct (nth_map_mkJoint _ _ Hjn) as (x & Hx & ->).
+  destruct (checkJoints_none _ _ _ _ Ej _ Hx) as (_ & H2 & H3). simpl. unfold nb. auto.
+Qed.
+
+Lemma generate_shape_ex fuel inp g : generate fuel inp = Ok g ->
+  checkJoints (length (allTypes inp)) (length (allBodies inp)) 0 (in_joints inp) = None /\
+  exists J1 s, precheck (allTypes inp) (allBodies inp) (seq 1 (nb (allBodies inp) - 1)) (inputJoints inp) = Ok J1 /\
+               mainloop (allTypes inp) (allBodies inp) fuel fuel J1 init_state = Ok (g_joints g, s) /\
+               Shape (allTypes inp) (allBodies inp) (inputJoints inp) g s.
 Proof.
   unfold generate. intros H.
   destruct (checkTypes 2 (in_types inp)); [discriminate|].
   destruct (checkBodies 1 (in_bodies inp)); [discriminate|].
-  destruct (checkJoints _ _ 0 (in_joints inp)) eqn:Ej; [discriminate|].
-  eapply generateGraph_shape; eauto.
+  destruct (checkJoints _ _ 0 (in_joints inp)) eqn:Ej; [discriminate|]. split; auto.
+  eapply generateGraph_shape_ex; eauto.
   - unfold nb, allBodies. simpl. lia.
-  - intros jn Hjn. unfold inputJoints in *. rewrite map_length in Hjn.
-    destruct (nth_map_mkJoint _ _ Hjn) as (x & Hx & ->).
-    destruct (checkJoints_none _ _ _ _ Ej _ Hx) as (_ & H2 & H3). simpl. unfold nb. auto.
+  - apply input_jrange; auto.
 Qed.
+
+Lemma generate_shape fuel inp g : generate fuel inp = Ok g ->
+  exists s, Shape (allTypes inp) (allBodies inp) (inputJoints inp) g s.
+Proof. intros H. destruct (generate_shape_ex _ _ _ H) as (_ & J1 & s & _ & _ & SH). eauto. Qed.
 
 Lemma nb_allBodies inp : nb (allBodies inp) = S (length (in_bodies inp)).
 Proof. reflexivity. Qed.
